@@ -220,6 +220,14 @@ pub fn slice() -> BS<Spec> {
                 let mut st = p.pick(2 + 3 * k, span) as i64 - dim - 3;
                 let mut en = p.pick(3 + 3 * k, span) as i64 - dim - 3;
                 let step = if with_steps && !old_form { [1i64, -1, 2, -2, 3, -3, 1, -1][p.pick(4 + 3 * k, 8)] } else { 1 };
+                // mostly orient the range along the step so that the result is not empty
+                {
+                    let norm = |v: i64| (if v < 0 { v + dim } else { v }).clamp(-1, dim);
+                    let (ns, ne) = (norm(st), norm(en));
+                    if ((step > 0 && ns > ne) || (step < 0 && ns < ne)) && p.pick(24 + k, 8) != 0 {
+                        std::mem::swap(&mut st, &mut en);
+                    }
+                }
                 // negative step with start < -dim: the spec text (clamp to 0) and the numpy-based
                 // reference implementation (empty) agree only if nothing is selected either way
                 if step < 0 && st < -dim && !huge {
